@@ -325,6 +325,7 @@ def r04_2(prog, cfg, rid="R04.2", slots=None, floor=None, only=None):
             # edges on which an upper bound of the subject is known to hold
             bounded = set()
             wrong_bounds = []
+            off_by_one = []
             for tb in f.blocks.values():
                 if not tb.term or "cond" not in tb.term or len(tb.succ) < 2:
                     continue
@@ -345,6 +346,22 @@ def r04_2(prog, cfg, rid="R04.2", slots=None, floor=None, only=None):
                 if ocounts and not (ocounts & set().union(*[TABLE_COUNTS[t_] for t_ in tfields])):
                     wrong_bounds.append((tb.term.get("line"), sorted(ocounts)))
                     continue
+                # compared with the table's own count (+- a constant): the arithmetic must come out at index <= count - 1.
+                # index = subject + k; the edge gives subject <= count + c (- 1 when the comparison is strict)
+                if ocounts:
+                    oc = other
+                    c_ = 0
+                    if isinstance(oc, list) and oc[0] == "bin" and oc[1] in ("-", "+") and const_of(oc[3]) is not None:
+                        c_ = const_of(oc[3]) * (1 if oc[1] == "+" else -1)
+                        oc = strip_casts(oc[2])
+                    if isinstance(oc, list) and oc[0] == "member" and oc[2] in ALL_COUNTS:
+                        k_ = 0
+                        if isinstance(it, list) and it[0] == "bin" and it[1] in ("-", "+") and const_of(it[3]) is not None and core is not it:
+                            k_ = const_of(it[3]) * (1 if it[1] == "+" else -1)
+                        d_ = 0 if op in ("<", ">=") else 1
+                        if c_ + d_ + k_ > 0:
+                            off_by_one.append((tb.term.get("line"), tree_text(c)))
+                            continue
                 bounded.add((tb.id, 0 if op in ("<", "<=") else 1))
             # definitions of the subject variable (entry for parameters and member subjects)
             starts = []
@@ -402,6 +419,8 @@ def r04_2(prog, cfg, rid="R04.2", slots=None, floor=None, only=None):
                 extra = ""
                 if wrong_bounds:
                     extra = " (the comparison at line %s bounds it by %s, which measures a different table)" % (wrong_bounds[0][0], ", ".join(wrong_bounds[0][1]))
+                if off_by_one:
+                    extra += " (the comparison `%s` at line %s lets the index equal the count: one entry past the table)" % (off_by_one[0][1], off_by_one[0][0])
                 r.bad(f, key, "`%s` indexes a descriptor table with `%s`, and no upper-bound comparison of that index with the table's own count "
                               "guards the access on every path%s: a value taken from the input (or an ill-formed structure) reads past the "
                               "table" % (tree_text(bt), tree_text(it), extra), e["line"])
